@@ -12,6 +12,7 @@ mod c06;
 mod c07;
 mod c08;
 mod c10;
+mod c10r;
 mod c11;
 mod c12;
 mod c15;
@@ -38,6 +39,7 @@ fn rerun(w: &Value) -> Option<Outcome> {
         "c12_header" => Some(c12::run_header(w["input"]["text"].as_str()?)),
         "c12_yacc" => Some(c12::run_yacc(w["input"]["text"].as_str()?)),
         "c12_lex" => Some(c12::run_lex(w["input"]["text"].as_str()?)),
+        "c10_render" => Some(c10r::run(w["input"]["seed"].as_u64()?, w["input"]["layout"].as_u64()? as usize, w["input"]["kind"].as_u64()? as u8)),
         "c20_u8_table" => Some(c20::run_u8_table(w["input"]["kind"].as_str()?, w["input"]["n"].as_u64()? as usize)),
         "c20_u8" => Some(c20::run_u8(w["input"]["kind"].as_str()?, w["input"]["n"].as_u64()? as usize)),
         "c03_expect" => Some(c03::run(w["input"]["body"].as_str()?, w["input"]["expect"].as_u64().map(|x| x as usize), w["input"]["expectrr"].as_u64().map(|x| x as usize))),
@@ -69,12 +71,12 @@ fn search(unit: &str, tag: &str, tier: &str) -> Option<Value> {
         "c12_header" => c12::search(tag, tier),
         "c12_lex" | "c12_flags" | "c12_unescape" => c12::search_lex(tier),
         "c12_yacc" | "c12_yacc2" | "c12_yacc3" => c12::search_yacc(tier),
-        "c10_decls" => if tag.starts_with("C12") { c12::search_yacc(tier) } else { c10::search(tag, tier) },
+        "c10_decls" => if tag.starts_with("C12") { c12::search_yacc(tier) } else { c10::search(tag, tier).or_else(|| c10r::search(tier)) },
         "c11_decl" if tag.starts_with("C12") => c12::search_lex(tier),
         "c08_reduce" => c08::search(tag, tier),
         "c11_decl" | "c11_lex" | "c09_lexer" => c11::search(tag, tier),
         "c15_cache" => c15::search_codegen(tier),
-        "c10_grammar" | "c10_validate" => if tag.starts_with("C15") { c15::search(tag, tier) } else { c10::search(tag, tier) },
+        "c10_grammar" | "c10_validate" => if tag.starts_with("C15") { c15::search(tag, tier) } else { c10::search(tag, tier).or_else(|| c10r::search(tier)) },
         "c03_expect" => c03::search(tag, tier),
         "c03_resolve" | "c03_prodprec" => c03r::search(tag, tier),
         "c17_firsts" | "c17_follows" | "c17_haspath" | "c17_costs" => c17::search(unit, tag, tier),
